@@ -358,10 +358,7 @@ func (s *seqRT) ruleIterString() {
 			opField = n
 		}
 	}
-	if opField == "" {
-		c.bad(rule, "seq."+ctor+" operand", s.w.FnPos(info.ctor), "the constructor does not keep the string itself (e.g. converts it to []rune, losing byte offsets and invalid bytes): "+info.base.Render(info.obj))
-		return
-	}
+	baseF := ff(baseObj)
 	st, r := info.symbolicObj()
 	outs := s.runMethod(st, info.moveNext, r)
 	var stop *Outcome
@@ -395,7 +392,23 @@ func (s *seqRT) ruleIterString() {
 	//  (b) a single-byte fast path: the path condition establishes str[pos] < utf8.RuneSelf, nothing is
 	//      called, pos' = pos + 1, key = old pos, value = rune(str[pos]).
 	// The paths partition the inputs, so together with the single exhausted path this is Go's range over a string.
-	var posExpr AV
+	// Fields that no path of MoveNext changes hold the value the constructor gave them throughout (the operand
+	// string, its length, ...): they are replaced by that value, so that the rule speaks about the remaining
+	// input and not about how the iterator happens to represent it (str+offset, the unconsumed suffix, ...).
+	constF := map[string]AV{}
+	for _, n := range info.fields {
+		unchanged := true
+		for _, o := range append(append([]*Outcome{}, advs...), stop) {
+			if !sameAV(ff(o.St.Obj(r))[n], Sym{Name: "F:" + n}) {
+				unchanged = false
+			}
+		}
+		if v := baseF[n]; unchanged && v != nil {
+			constF[n] = v
+		}
+	}
+	subst0 := func(v AV) AV { return normStr(substSome(v, constF)) }
+	var remB, remO AV // the remaining input, as base[off:] over the pre-state
 	decodePaths, fastPaths := 0, 0
 	for _, adv := range advs {
 		var calls []*Event
@@ -413,6 +426,10 @@ func (s *seqRT) ruleIterString() {
 		k := canon(pairField(cur[0].Ret[0], "Key"))
 		v := canon(pairField(cur[0].Ret[0], "Val"))
 		if len(calls) == 0 {
+			if opField == "" {
+				c.bad(rule, "seq."+ctor+" fast path", pos, "an advancing path without a decoder call on an iterator that does not keep the string in a field: not a recognised single-byte fast path", adv.St.TraceStrings()...)
+				return
+			}
 			// (b) fast path: find the position field as the one that advanced by 1
 			fpf := ""
 			for _, n := range info.fields {
@@ -456,69 +473,269 @@ func (s *seqRT) ruleIterString() {
 			c.bad(rule, "seq."+ctor+" decode", pos, "the advancing path does not decode the next UTF-8 sequence with unicode/utf8.DecodeRune[InString] (byte offsets and U+FFFD/width 1 for invalid bytes cannot be obtained otherwise)", adv.St.TraceStrings()...)
 			return
 		}
-		// argument: str[P:]
+		// The decoder's argument, as an expression R(σ) over the iterator state σ before the advance, is "the
+		// remaining input". Induction: R(σ0) = str for the constructed state; R(σ') = R(σ)[w:] with w the width
+		// the decoder returned; MoveNext reports false iff R(σ) is empty. Then R(σ) is always a suffix of str and
+		// the offset of the rune decoded from it is len(str) - len(R(σ)), which is what Current().Key must be.
 		arg := dec.Args[0]
-		ae, isE := arg.(Expr)
-		var P AV
-		if isE && ae.Op == "slice" && len(ae.Args) == 3 && canon(ae.Args[0]) == "⟨F:"+opField+"⟩" {
-			if _, hiNil := ae.Args[2].(Nil); hiNil {
-				P = ae.Args[1]
-			}
-		}
-		// the position is an expression over the iterator's own integer fields (one field, or e.g. idx+width)
-		posOK := P != nil
-		for n := range fieldSyms(P) {
-			if n == opField {
-				posOK = false
-			}
-		}
-		if !posOK || len(fieldSyms(P)) == 0 {
-			c.bad(rule, "seq."+ctor+" decode", pos, "decoder is not applied to the remaining bytes str[pos:] with pos computed from the iterator's position fields; got argument "+canon(arg))
+		B, O, okR := suffixOf(subst0(arg))
+		if !okR || len(fieldSyms(subst0(arg))) == 0 {
+			c.bad(rule, "seq."+ctor+" decode", pos, "decoder is not applied to the remaining input (a suffix x[pos:] or a field holding the unconsumed suffix, computed from the iterator's own state); got argument "+canon(arg))
 			return
 		}
-		posExpr = P
+		remB, remO = B, O
 		rv := fmt.Sprintf("ret:%s#", dec.Name())
-		// the same expression evaluated on the fields after the advance
-		Pnext := substFields(P, ff(after))
-		gotNext := canon(Pnext)
+		B1, O1, ok1 := suffixOf(subst0(substSome(arg, ff(after))))
 		var r0, r1 string
-		for n := range allSyms(Pnext) {
-			if strings.HasPrefix(n, rv) && strings.HasSuffix(n, "#1") {
-				r1 = "⟨" + n + "⟩"
+		if ok1 {
+			for n := range allSyms(O1) {
+				if strings.HasPrefix(n, rv) && strings.HasSuffix(n, "#1") {
+					r1 = "⟨" + n + "⟩"
+				}
 			}
 		}
 		if r1 == "" {
-			c.bad(rule, "seq."+ctor+" advance", pos, "the position is not advanced by the width returned by the decoder (e.g. by RuneLen of the rune, which is 3 for an invalid byte decoded as U+FFFD with width 1); got pos' = "+gotNext)
+			c.bad(rule, "seq."+ctor+" advance", pos, "the remaining input is not advanced by the width returned by the decoder (e.g. by RuneLen of the rune, which is 3 for an invalid byte decoded as U+FFFD with width 1); got "+canon(subst0(substSome(arg, ff(after)))))
 			return
 		}
 		r0 = strings.TrimSuffix(r1, "#1⟩") + "#0⟩"
-		wantNext := canon(Expr{Op: "+", Args: []AV{P, Sym{Name: strings.Trim(r1, "⟨⟩")}}})
-		c.check(gotNext == wantNext, rule, "seq."+ctor+" advance", pos, "pos' = pos + width returned by the decoder", "expected pos' = "+wantNext+"; got "+gotNext)
-		c.check(k == canon(P) && v == r0, rule, "seq."+ctor+" Current after advance", s.w.FnPos(info.current),
+		wantO := Expr{Op: "+", Args: []AV{O, Sym{Name: strings.Trim(r1, "⟨⟩")}}}
+		c.check(ok1 && canon(B1) == canon(B) && sameLin(O1, wantO), rule, "seq."+ctor+" advance", pos, "remaining' = remaining[width returned by the decoder:]", "expected the remaining input to shrink by exactly the decoder's width: "+canon(B)+"["+canon(wantO)+":]; got "+canon(subst0(substSome(arg, ff(after)))))
+		// Key = len(str) - len(R(σ)) = len(str) - len(B) + O
+		wantK := Expr{Op: "+", Args: []AV{Expr{Op: "-", Args: []AV{Expr{Op: "len", Args: []AV{Sym{Name: "str"}}}, Expr{Op: "len", Args: []AV{B}}}}, O}}
+		kv := subst0(pairField(cur[0].Ret[0], "Key"))
+		c.check(sameLin(kv, wantK) && v == r0, rule, "seq."+ctor+" Current after advance", s.w.FnPos(info.current),
 			"Key is the byte offset the rune was decoded at, Val the decoded rune",
-			"expected Key = "+canon(P)+" (offset before the advance) and Val = "+r0+"; got Key = "+k+", Val = "+v)
+			"expected Key = offset of the decoded sequence ("+linString(wantK)+") and Val = "+r0+"; got Key = "+canon(kv)+", Val = "+v)
 		decodePaths++
 	}
 	if decodePaths == 0 {
 		c.bad(rule, "seq."+ctor+" decode", pos, "no advancing path decodes a UTF-8 sequence")
 		return
 	}
-	// stop condition
-	wantStop := "<=(len(⟨F:" + opField + "⟩)," + canon(posExpr) + ")"
+	// stop condition: iff the remaining input is empty
+	remLen := Expr{Op: "-", Args: []AV{Expr{Op: "len", Args: []AV{remB}}, remO}}
+	okStop := len(stop.St.Conds) == 1 && emptyCond(Cond{V: subst0(stop.St.Conds[0].V), Truth: stop.St.Conds[0].Truth}, remLen, remB, remO)
 	gotStop := ""
 	for _, cd := range stop.St.Conds {
-		gotStop = condCanon(cd)
+		gotStop += condCanon(cd) + " "
 	}
-	c.check(gotStop == wantStop && len(stop.St.Conds) == 1, rule, "seq."+ctor+" exhaustion", pos, "reports false iff pos >= len(str), and changes nothing then", "expected the single stop condition "+wantStop+"; got "+gotStop)
+	c.check(okStop, rule, "seq."+ctor+" exhaustion", pos, "reports false iff the remaining input is empty, and changes nothing then", "expected the single stop condition len(remaining) <= 0 with remaining = "+canon(remB)+"["+canon(remO)+":]; got "+gotStop)
 	for _, n := range info.fields {
 		if !sameAV(ff(stop.St.Obj(r))[n], Sym{Name: "F:" + n}) {
 			c.bad(rule, "seq."+ctor+" exhaustion", pos, "exhausted MoveNext modifies field "+n)
 		}
 	}
 	_ = fastPaths
-	// base: position starts at 0 (the position expression evaluated on the freshly constructed iterator)
-	n0, isInt := evalIntExpr(posExpr, ff(baseObj))
-	c.check(isInt && n0 == 0, rule, "seq."+ctor+" initial position", s.w.FnPos(info.ctor), "decoding starts at byte offset 0", "initial position is "+canon(substFields(posExpr, ff(baseObj))))
+	// base: the remaining input of the freshly constructed iterator is the whole operand
+	B0, O0, ok0 := suffixOf(normStr(substFields(substSome(remSlice(remB, remO), constF), baseF)))
+	c.check(ok0 && canon(B0) == "⟨str⟩" && sameLin(O0, mkInt(0)), rule, "seq."+ctor+" initial position", s.w.FnPos(info.ctor), "decoding starts at byte offset 0 of the operand", "initially the remaining input is "+canon(normStr(substFields(remSlice(remB, remO), baseF)))+", not the operand string")
+}
+
+func remSlice(b, o AV) AV { return Expr{Op: "slice", Args: []AV{b, o, Nil{}}} }
+
+// substSome replaces the field symbols F:<name> that have an entry in fields and leaves the others alone.
+func substSome(v AV, fields map[string]AV) AV {
+	switch x := v.(type) {
+	case Sym:
+		if strings.HasPrefix(x.Name, "F:") {
+			if f, ok := fields[strings.TrimPrefix(x.Name, "F:")]; ok && f != nil {
+				return f
+			}
+		}
+		return x
+	case Expr:
+		args := make([]AV, len(x.Args))
+		for i, a := range x.Args {
+			args[i] = substSome(a, fields)
+		}
+		return Expr{Op: x.Op, Args: args}
+	}
+	return v
+}
+
+// normStr normalises suffix expressions: x[a:][b:] = x[a+b:], x[0:] = x, len(x[a:]) = len(x) - a
+// (valid for 0 <= a <= len(x), which the bounds check of the slice expression itself enforces).
+func normStr(v AV) AV {
+	e, ok := v.(Expr)
+	if !ok {
+		return v
+	}
+	args := make([]AV, len(e.Args))
+	for i, a := range e.Args {
+		args[i] = normStr(a)
+	}
+	e = Expr{Op: e.Op, Args: args}
+	isZero := func(a AV) bool {
+		if a == nil {
+			return true
+		}
+		switch a.(type) {
+		case Nil, Zero:
+			return true
+		}
+		l, ok := linForm(a)
+		if !ok || l.c != 0 {
+			return false
+		}
+		for _, t := range l.terms {
+			if t != 0 {
+				return false
+			}
+		}
+		return true
+	}
+	openEnd := func(x Expr) bool {
+		if len(x.Args) != 3 {
+			return false
+		}
+		_, hiNil := x.Args[2].(Nil)
+		return hiNil || x.Args[2] == nil
+	}
+	switch e.Op {
+	case "slice":
+		if !openEnd(e) {
+			return e
+		}
+		if isZero(e.Args[1]) {
+			return e.Args[0]
+		}
+		if in, ok := e.Args[0].(Expr); ok && in.Op == "slice" && openEnd(in) {
+			return Expr{Op: "slice", Args: []AV{in.Args[0], Expr{Op: "+", Args: []AV{in.Args[1], e.Args[1]}}, Nil{}}}
+		}
+	case "len":
+		if len(e.Args) == 1 {
+			if in, ok := e.Args[0].(Expr); ok && in.Op == "slice" && openEnd(in) {
+				return Expr{Op: "-", Args: []AV{Expr{Op: "len", Args: []AV{in.Args[0]}}, in.Args[1]}}
+			}
+		}
+	}
+	return e
+}
+
+// suffixOf splits a normalised string expression into base[off:].
+func suffixOf(v AV) (base, off AV, ok bool) {
+	v = normStr(v)
+	if e, isE := v.(Expr); isE {
+		if e.Op == "slice" && len(e.Args) == 3 {
+			if _, hiNil := e.Args[2].(Nil); hiNil {
+				if _, inner := e.Args[0].(Expr); !inner {
+					return e.Args[0], e.Args[1], true
+				}
+			}
+		}
+		return nil, nil, false
+	}
+	if _, isSym := v.(Sym); isSym {
+		return v, mkInt(0), true
+	}
+	return nil, nil, false
+}
+
+func sameLin(a, b AV) bool {
+	la, ok1 := linForm(normStr(a))
+	lb, ok2 := linForm(normStr(b))
+	if !ok1 || !ok2 {
+		return false
+	}
+	if la.c != lb.c {
+		return false
+	}
+	for k, v := range la.terms {
+		if lb.terms[k] != v {
+			return false
+		}
+	}
+	for k, v := range lb.terms {
+		if la.terms[k] != v {
+			return false
+		}
+	}
+	return true
+}
+
+func linString(a AV) string {
+	l, ok := linForm(normStr(a))
+	if !ok {
+		return canon(a)
+	}
+	return l.String()
+}
+
+// emptyCond: does the branch condition (with its truth value) say exactly "remLen <= 0", remLen being the
+// length of a suffix (so >= 0: `== 0` and `<= 0`, `< 1` are the same statement)?
+func emptyCond(cd Cond, remLen, remB, remO AV) bool {
+	e, ok := cd.V.(Expr)
+	if !ok {
+		return false
+	}
+	for e.Op == "!" && len(e.Args) == 1 {
+		in, ok := e.Args[0].(Expr)
+		if !ok {
+			return false
+		}
+		e, cd.Truth = in, !cd.Truth
+	}
+	if len(e.Args) != 2 {
+		return false
+	}
+	want, okW := linForm(normStr(Expr{Op: "-", Args: []AV{remLen, mkInt(1)}})) // remLen - 1 < 0
+	if !okW {
+		return false
+	}
+	eqLin := func(x, y linearForm) bool {
+		if x.c != y.c {
+			return false
+		}
+		for k, v := range x.terms {
+			if y.terms[k] != v {
+				return false
+			}
+		}
+		for k, v := range y.terms {
+			if x.terms[k] != v {
+				return false
+			}
+		}
+		return true
+	}
+	switch e.Op {
+	case "<", "<=", ">", ">=":
+		g, ok := guardForm(Expr{Op: e.Op, Args: []AV{normStr(e.Args[0]), normStr(e.Args[1])}})
+		if !ok {
+			return false
+		}
+		if !cd.Truth { // not (g < 0)  <=>  -g - 1 < 0
+			n := linearForm{terms: map[string]int64{}, c: -g.c - 1}
+			for k, v := range g.terms {
+				n.terms[k] = -v
+			}
+			g = n
+		}
+		return eqLin(g, want)
+	case "==", "!=":
+		if (e.Op == "==") != cd.Truth {
+			return false
+		}
+		// remaining == "" or len(remaining) == 0
+		for i := 0; i < 2; i++ {
+			a, b := e.Args[i], e.Args[1-i]
+			if cst, ok := b.(Const); ok {
+				if cst.String() == `""` {
+					if B, O, ok := suffixOf(a); ok && canon(B) == canon(remB) && sameLin(O, remO) {
+						return true
+					}
+				}
+				if n, ok := asInt(cst); ok && n == 0 && sameLin(a, remLen) {
+					return true
+				}
+			}
+			if _, isZ := b.(Zero); isZ && sameLin(a, remLen) {
+				return true
+			}
+		}
+	}
+	return false
 }
 
 // fieldSyms: names of the iterator fields (symbols "F:<name>") occurring in v.
